@@ -1,7 +1,8 @@
 /-
 Lemmas for `Props/C03.lean :: rename_in_place`: what `relabel old new` does to tags and edge attributes when `new`
 carries no edge, one RENAME pair of the statement fold on an arbitrary well‑formed state (`renameOne_*`), and the three role
-predicates expressed through atoms that move with the relabelling (`Moved`).  Core Lean only.
+predicates expressed through atoms that move with the relabelling (`Moved`); every state of the fold over any history of abstract
+statements is well‑formed and free of SELFLOOP tags (`fold_wf`, `fold_no_selfloop_tag`).  Core Lean only.
 -/
 import SqlLineage.Proofs.AStmtLemmas
 
@@ -790,4 +791,246 @@ theorem renameOne_idx (hh : RenHolder h a b) (hwf : WF g) (hb : b ∉ g.nodes) (
     fun e he => not_mem_edges_of_new hwf hb e ((mem_renState_edges hh hwf hb e).mp he)
   simp only [idx, (hasEdge_iff _ _ _).mpr h1, (hasEdge_iff _ _ _).mpr huv, if_true]
   rw [renameOne_eidx, eidx_relabel _ _ _ _ hfresh u v hK, renState_eidx hh hwf hb u v huv]
+end SqlLineage.AStmt
+
+/-! ### along the whole fold: every state is well‑formed and carries no SELFLOOP tag
+
+(for EVERY history of abstract statements, DROP and RENAME included — what makes `rename_in_place` applicable at any point of a
+script) -/
+
+namespace SqlLineage.Graph
+variable {ν π : Type} [DecidableEq ν]
+
+omit [DecidableEq ν] in
+theorem wf_empty : WF (Graph.empty : Graph ν π) := by intro e he; simp at he
+
+theorem wf_compose {g h : Graph ν π} (hg : WF g) (hh : WF h) : WF (g.compose h) := by
+  intro e he
+  rcases (mem_edges_compose g h e).mp he with a | a
+  · exact ⟨(mem_nodes_compose _ _ _).mpr (Or.inl (hg e a).1), (mem_nodes_compose _ _ _).mpr (Or.inl (hg e a).2)⟩
+  · exact ⟨(mem_nodes_compose _ _ _).mpr (Or.inr (hh e a).1), (mem_nodes_compose _ _ _).mpr (Or.inr (hh e a).2)⟩
+
+theorem wf_removeNode {g : Graph ν π} (hg : WF g) (n : ν) : WF (g.removeNode n) := by
+  intro e he
+  obtain ⟨h1, h2, h3⟩ := (mem_edges_removeNode g n e).mp he
+  exact ⟨(mem_nodes_removeNode _ _ _).mpr ⟨(hg e h1).1, h2⟩, (mem_nodes_removeNode _ _ _).mpr ⟨(hg e h1).2, h3⟩⟩
+
+theorem wf_relabel {g : Graph ν π} (hg : WF g) (old new : ν) (p : Option π) : WF (g.relabel old new p) := by
+  intro e he
+  obtain ⟨a, b, hab, rfl⟩ := (mem_edges_relabel g old new e p).mp he
+  have := hg _ (mem_edgesOrdered g _ hab)
+  exact ⟨(mem_nodes_relabel _ _ _ _ _).mpr ⟨a, this.1, rfl⟩, (mem_nodes_relabel _ _ _ _ _).mpr ⟨b, this.2, rfl⟩⟩
+
+theorem wf_addEdge {g : Graph ν π} (hg : WF g) (u v : ν) (ty : EType) (i : Option Nat) (pu pv : Option π) :
+    WF (g.addEdge u v ty i pu pv) := by
+  intro e he
+  rcases (mem_edges_addEdge g u v e ty i pu pv).mp he with a | a
+  · exact ⟨(mem_nodes_addEdge _ _ _ _ _ _ _ _).mpr (Or.inl (hg e a).1),
+           (mem_nodes_addEdge _ _ _ _ _ _ _ _).mpr (Or.inl (hg e a).2)⟩
+  · rw [a]
+    exact ⟨(mem_nodes_addEdge _ _ _ _ _ _ _ _).mpr (Or.inr (Or.inl rfl)),
+           (mem_nodes_addEdge _ _ _ _ _ _ _ _).mpr (Or.inr (Or.inr rfl))⟩
+
+/-- a tag no node carries is carried by no node after a relabelling -/
+theorem tag_relabel_none (k : Graph ν π) (old new : ν) (p : Option π) (t : Tag) (hk : ∀ m, k.tag m t = none) (n : ν) :
+    (k.relabel old new p).tag n t = none := by
+  by_cases hn : n ∈ (k.relabel old new p).nodes
+  · rw [tag_of_mem _ _ _ hn]
+    show (match (k.nodes.filter (fun a => decide ((if a = old then new else a) = n))).getLast? with
+      | some m => k.ntag m t | none => none) = none
+    cases hl : (k.nodes.filter (fun a => decide ((if a = old then new else a) = n))).getLast? with
+    | none => rfl
+    | some m =>
+      have hm : m ∈ k.nodes := (List.mem_filter.mp (List.mem_of_getLast? hl)).1
+      show k.ntag m t = none
+      rw [← tag_of_mem _ _ _ hm]; exact hk m
+  · exact tag_of_not_mem _ _ _ hn
+
+end SqlLineage.Graph
+
+namespace SqlLineage.AStmt
+open SqlLineage Graph Holder Assemble
+
+theorem wf_dropStep (ts : List Node) : ∀ {g : LGraph}, WF g → WF (dropStep g ts) := by
+  induction ts with
+  | nil => intro g hg; exact hg
+  | cons t r ih =>
+    intro g hg
+    simp only [dropStep, List.foldl_cons]
+    split
+    · exact ih (wf_removeNode hg t)
+    · exact ih hg
+
+theorem wf_removeEdges {g : LGraph} (hg : WF g) (ps : List (Node × Node)) : WF (removeEdges g ps) :=
+  fun e he => hg e (List.mem_filter.mp he).1
+
+theorem wf_renameOne {g : LGraph} (hg : WF g) (p : Node × Node) : WF (renameOne g p) := by
+  unfold renameOne
+  simp only
+  split
+  · exact wf_removeNode (wf_relabel hg _ _ _) _
+  · exact wf_relabel hg _ _ _
+
+theorem wf_renameStep {g : LGraph} (hg : WF g) (ps : List (Node × Node)) : WF (renameStep g ps) := by
+  unfold renameStep
+  have gen : ∀ (l : List (Node × Node)) (G : LGraph), WF G → WF (l.foldl renameOne G) := by
+    intro l
+    induction l with
+    | nil => intro G hG; exact hG
+    | cons p r ih => intro G hG; exact ih _ (wf_renameOne hG p)
+  exact gen ps _ (wf_removeEdges hg ps)
+
+theorem wf_foldl_addEdge (es : List (Node × Node)) (ty : EType) : ∀ {g : LGraph}, WF g →
+    WF (es.foldl (fun g e => g.addEdge e.1 e.2 ty) g) := by
+  induction es with
+  | nil => intro g hg; exact hg
+  | cons e r ih => intro g hg; exact ih (wf_addEdge hg _ _ _ _ _ _)
+
+theorem wf_rwStep {g : LGraph} (hg : WF g) (rd wr : List Node) : WF (rwStep g rd wr) := by
+  unfold rwStep
+  split
+  · exact hg
+  · split
+    · exact hg
+    · exact wf_foldl_addEdge _ _ hg
+
+theorem wf_foldStep (ord : List (Node × Node) → List (Node × Node)) {g h g' : LGraph} (hg : WF g) (hh : WF h)
+    (hs : foldStep ord g h = .ok g') : WF g' := by
+  unfold foldStep at hs
+  simp only at hs
+  have hc := wf_compose hg hh
+  split at hs
+  · cases hs; exact wf_dropStep _ hc
+  · split at hs
+    · cases hs; exact wf_renameStep hc _
+    · cases hs; exact wf_rwStep hc _ _
+
+theorem wf_foldAll (ord : List (Node × Node) → List (Node × Node)) : ∀ (hs : List LGraph) {g g' : LGraph}, WF g →
+    (∀ h ∈ hs, WF h) → foldAll ord g hs = .ok g' → WF g'
+  | [], g, g', hg, _, h => by simp only [foldAll] at h; cases h; exact hg
+  | x :: r, g, g', hg, hx, h => by
+    simp only [foldAll] at h
+    split at h
+    · rename_i g1 h1
+      exact wf_foldAll ord r (wf_foldStep ord hg (hx x (by simp)) h1) (fun y hy => hx y (by simp [hy])) h
+    · cases h
+
+theorem wf_renames (ps : List (String × String)) : ∀ {g : LGraph}, WF g →
+    WF (ps.foldl (fun g p => Holder.addRename g (tbl p.1) (tbl p.2)) g) := by
+  induction ps with
+  | nil => intro g hg; exact hg
+  | cons p r ih => intro g hg; exact ih (wf_addEdge hg _ _ _ _ _ _)
+
+theorem wf_holderOf (s : AStmt) : WF (holderOf s) := by
+  cases s with
+  | rw R w =>
+    intro e he
+    obtain ⟨r, hr, h⟩ := (rw_edges R w e).mp he
+    rw [h]
+    exact ⟨(rw_nodes R w _).mpr (Or.inl ⟨r, hr, Or.inl rfl⟩), (rw_nodes R w _).mpr (Or.inl ⟨r, hr, Or.inr rfl⟩)⟩
+  | drop t =>
+    intro e he
+    simp [holderOf, Holder.addDrop, setTag, addNode, hasNode, Graph.empty] at he
+  | rename ps => exact wf_renames ps wf_empty
+
+/-- **every state of the fold over ANY history of abstract statements is well‑formed** -/
+theorem fold_wf (ord : List (Node × Node) → List (Node × Node)) (ss : List AStmt) (g : LGraph)
+    (h : foldAll ord Graph.empty (ss.map holderOf) = .ok g) : WF g :=
+  wf_foldAll ord _ wf_empty (fun h hh => by
+    obtain ⟨s, _, rfl⟩ := List.mem_map.mp hh
+    exact wf_holderOf s) h
+
+/-! no node carries tag `t` -/
+
+def TagFree (g : LGraph) (t : Tag) : Prop := ∀ n, g.tag n t = none
+
+theorem tagFree_empty (t : Tag) : TagFree (Graph.empty : LGraph) t := fun n => tag_empty n t
+
+theorem tagFree_compose {g h : LGraph} {t : Tag} (hg : TagFree g t) (hh : TagFree h t) : TagFree (g.compose h) t := by
+  intro n; rw [tag_compose, hh n, hg n]
+
+theorem tagFree_removeNode {g : LGraph} {t : Tag} (hg : TagFree g t) (m : Node) : TagFree (g.removeNode m) t := by
+  intro n
+  by_cases h : n = m
+  · rw [h]; exact tag_removeNode_self _ _ _
+  · rw [tag_removeNode_ne _ _ _ _ h]; exact hg n
+
+theorem tagFree_dropStep {t : Tag} (ts : List Node) : ∀ {g : LGraph}, TagFree g t → TagFree (dropStep g ts) t := by
+  induction ts with
+  | nil => intro g hg; exact hg
+  | cons x r ih =>
+    intro g hg
+    simp only [dropStep, List.foldl_cons]
+    split
+    · exact ih (tagFree_removeNode hg x)
+    · exact ih hg
+
+theorem tagFree_renameOne {g : LGraph} {t : Tag} (hg : TagFree g t) (p : Node × Node) : TagFree (renameOne g p) t := by
+  unfold renameOne
+  simp only
+  split
+  · exact tagFree_removeNode (tag_relabel_none g _ _ _ t hg) _
+  · exact tag_relabel_none g _ _ _ t hg
+
+theorem tagFree_renameStep {g : LGraph} {t : Tag} (hg : TagFree g t) (ps : List (Node × Node)) :
+    TagFree (renameStep g ps) t := by
+  unfold renameStep
+  have gen : ∀ (l : List (Node × Node)) (G : LGraph), TagFree G t → TagFree (l.foldl renameOne G) t := by
+    intro l
+    induction l with
+    | nil => intro G hG; exact hG
+    | cons p r ih => intro G hG; exact ih _ (tagFree_renameOne hG p)
+  exact gen ps _ (fun n => hg n)
+
+theorem tagFree_selfloop_foldStep (ord : List (Node × Node) → List (Node × Node)) {g h g' : LGraph}
+    (hg : TagFree g .selfloop) (hh : TagFree h .selfloop) (hs : foldStep ord g h = .ok g') : TagFree g' .selfloop := by
+  unfold foldStep at hs
+  simp only at hs
+  have hc := tagFree_compose hg hh
+  split at hs
+  · cases hs; exact tagFree_dropStep _ hc
+  · split at hs
+    · cases hs; exact tagFree_renameStep hc _
+    · cases hs
+      intro n
+      rw [rwStep_tag]
+      simp only [reduceCtorEq, false_and, if_false]
+      exact hc n
+
+theorem tagFree_selfloop_foldAll (ord : List (Node × Node) → List (Node × Node)) : ∀ (hs : List LGraph) {g g' : LGraph},
+    TagFree g .selfloop → (∀ h ∈ hs, TagFree h .selfloop) → foldAll ord g hs = .ok g' → TagFree g' .selfloop
+  | [], g, g', hg, _, h => by simp only [foldAll] at h; cases h; exact hg
+  | x :: r, g, g', hg, hx, h => by
+    simp only [foldAll] at h
+    split at h
+    · rename_i g1 h1
+      exact tagFree_selfloop_foldAll ord r (tagFree_selfloop_foldStep ord hg (hx x (by simp)) h1)
+        (fun y hy => hx y (by simp [hy])) h
+    · cases h
+
+theorem tagFree_selfloop_holderOf (s : AStmt) : TagFree (holderOf s) .selfloop := by
+  cases s with
+  | rw R w => exact fun n => rw_tag_none R w n .selfloop (by decide) (by decide)
+  | drop t =>
+    intro n
+    simp only [holderOf, Holder.addDrop, tag_setTag, reduceCtorEq, and_false, if_false, tag_empty]
+  | rename ps =>
+    have gen : ∀ (l : List (String × String)) (G : LGraph), TagFree G .selfloop →
+        TagFree (l.foldl (fun g p => Holder.addRename g (tbl p.1) (tbl p.2)) G) .selfloop := by
+      intro l
+      induction l with
+      | nil => intro G hG; exact hG
+      | cons p r ih =>
+        intro G hG
+        refine ih _ (fun n => ?_)
+        simp only [Holder.addRename, tag_addEdge]; exact hG n
+    exact gen ps _ (tagFree_empty _)
+
+/-- **no state of the fold carries a SELFLOOP tag** (it is only set by the tail of `_build_digraph`) -/
+theorem fold_no_selfloop_tag (ord : List (Node × Node) → List (Node × Node)) (ss : List AStmt) (g : LGraph)
+    (h : foldAll ord Graph.empty (ss.map holderOf) = .ok g) : ∀ n, g.tag n .selfloop = none :=
+  tagFree_selfloop_foldAll ord _ (tagFree_empty _) (fun h hh => by
+    obtain ⟨s, _, rfl⟩ := List.mem_map.mp hh
+    exact tagFree_selfloop_holderOf s) h
+
 end SqlLineage.AStmt
